@@ -3350,7 +3350,6 @@ class Session(object):
                     host, conn_exc, is_host_addition, expect_host_to_be_down=True)
                 return False
 
-            previous = self._pools.get(host)
             with self._lock:
                 if self.is_shutdown:
                     # the session was shut down while this pool was connecting:
@@ -3375,6 +3374,9 @@ class Session(object):
                         self._lock.acquire()
                         return False
                     self._lock.acquire()
+                # read the pool being replaced in the same locked region that installs the
+                # new one: two creations for one host must not both "replace" the same pool
+                previous = self._pools.get(host)
                 self._pools[host] = new_pool
 
             log.debug("Added pool for host %s to session", host)
